@@ -263,6 +263,43 @@ def make_temperature(tp):
     raise ValueError(tp['kind'])
 
 
+_COND_CLASS = []
+
+
+def cond_chemistry_class():
+    """A free chemistry that also reports condensates, as plug-in chemistries
+    (GGchem, FastChem with condensation) do: two cloud species whose mixing
+    ratios follow the temperature and the first active gas of each sample."""
+    if _COND_CLASS:
+        return _COND_CLASS[0]
+    from taurex.data.profiles.chemistry import TaurexChemistry
+
+    class CondChemistry(TaurexChemistry):
+
+        @property
+        def condensates(self):
+            return ['Mg2SiO4(c)', 'Fe(c)']
+
+        @property
+        def condensateMixProfile(self):
+            T = np.asarray(self._cond_T, dtype=float)
+            act = np.asarray(self.activeGasMixProfile, dtype=float)
+            second = 0.1 * act[0] if act.shape[0] else 1e-9 * T
+            return np.array([1e-9 * T, second])
+
+        def initialize_chemistry(self, nlayers=100, temperature_profile=None,
+                                 pressure_profile=None,
+                                 altitude_profile=None):
+            self._cond_T = np.array(temperature_profile, dtype=float)
+            return super().initialize_chemistry(
+                nlayers=nlayers, temperature_profile=temperature_profile,
+                pressure_profile=pressure_profile,
+                altitude_profile=altitude_profile)
+
+    _COND_CLASS.append(CondChemistry)
+    return CondChemistry
+
+
 def build_model(cfg, install=True, contrib_order=None):
     """Returns a built model.  `contrib_order` overrides the add order."""
     from taurex.data.profiles.chemistry import TaurexChemistry, ConstantGas
@@ -274,8 +311,10 @@ def build_model(cfg, install=True, contrib_order=None):
     ratio = cfg.get('ratio', 0.17)
     if isinstance(ratio, (list, tuple)):
         ratio = list(ratio)      # the chemistry keeps (and writes into) it
-    chem = TaurexChemistry(fill_gases=list(cfg.get('fill', ['H2', 'He'])),
-                           ratio=ratio)
+    chem_class = cond_chemistry_class() if cfg.get('condensate') \
+        else TaurexChemistry
+    chem = chem_class(fill_gases=list(cfg.get('fill', ['H2', 'He'])),
+                      ratio=ratio)
     for m in cfg['molecules']:
         chem.addGas(make_gas(m))
     pl = cfg.get('planet', {})
